@@ -22,7 +22,7 @@ if [ "$3" != "notests" ]; then
 fi
 git checkout -q -- src
 echo "== checks"
-cd /verif
+cd ${VERIF_DIR:-/verif}
 IDS=$(python3 -c "import json; print(' '.join(c['property_id'] for c in json.load(open('MANIFEST.json'))['checks']))")
 for c in $IDS; do
   ( FINAM_SRC=/tmp/seedsrc/$ID$V/src timeout 900 ./check $c quick > $LOG/check_$c.txt 2>&1; echo "$c exit=$? $(grep -h VIOLATION $LOG/check_$c.txt | head -1)" ) &
